@@ -16,11 +16,12 @@ from concurrent.futures import ThreadPoolExecutor
 
 ROOT = os.path.dirname(os.path.dirname(os.path.abspath(__file__)))
 SPEC = os.path.join(ROOT, "spec")
-WORK = os.path.join(ROOT, "work")
+_ALT = bool(os.environ.get("VERIF_REPO"))          # experiments against a scratch tree: nothing under evidence/ or work/ is touched
+WORK = os.path.join(ROOT, "work-alt" if _ALT else "work")
 FLAT = os.path.join(WORK, "flat")
 HARNESS = os.path.join(ROOT, "harness")
-EVID = os.path.join(ROOT, "evidence")
-REPLAYS = os.path.join(ROOT, "replays")
+EVID = os.path.join(WORK, "evidence") if _ALT else os.path.join(ROOT, "evidence")
+REPLAYS = os.path.join(WORK, "replays") if _ALT else os.path.join(ROOT, "replays")
 JAR = "/opt/veriftools/tla/tla2tools.jar:/opt/veriftools/tla/CommunityModules-deps.jar"
 MAX_JVMS = int(os.environ.get("VERIF_JVMS", "14"))
 
@@ -114,9 +115,23 @@ def tlc_failed(r):
 
 
 # ------------------------------------------------------------------------------------------------
+def harness_dir():
+    """/verif/harness (path dependency on /repo). For experiments only, VERIF_REPO=<dir> builds a copy of the harness
+    under work/ whose chrono dependency points to <dir>, so that a scratch tree can be checked while /repo is in use."""
+    alt = os.environ.get("VERIF_REPO")
+    if not alt:
+        return HARNESS
+    d = os.path.join(WORK, "harness-alt")
+    os.makedirs(d, exist_ok=True)
+    subprocess.run(["rsync", "-a", "--delete", "--exclude", "target", HARNESS + "/", d + "/"], check=True)
+    t = open(os.path.join(d, "Cargo.toml")).read().replace('path = "/repo"', 'path = "%s"' % alt)
+    open(os.path.join(d, "Cargo.toml"), "w").write(t)
+    return d
+
+
 def build_harness():
     t0 = time.time()
-    p = subprocess.run(["cargo", "build", "--release", "--offline"], cwd=HARNESS, stdout=subprocess.PIPE, stderr=subprocess.STDOUT, text=True)
+    p = subprocess.run(["cargo", "build", "--release", "--offline"], cwd=harness_dir(), stdout=subprocess.PIPE, stderr=subprocess.STDOUT, text=True)
     if p.returncode != 0:
         log(p.stdout[-6000:])
         raise ToolFailure("harness build failed (does /repo still compile with --cfg chronotope_chrono_verif?)")
@@ -124,7 +139,7 @@ def build_harness():
 
 
 def harness_bin(name):
-    return os.path.join(HARNESS, "target", "release", name)
+    return os.path.join(HARNESS if not os.environ.get("VERIF_REPO") else os.path.join(WORK, "harness-alt"), "target", "release", name)
 
 
 def run_drive(workload, tier, seed, outdir, timeout=3000):
